@@ -45,15 +45,17 @@ theorem div_by_zero_reports (a : Int) :
 
 /-! ### shifts -/
 
-theorem shl_spec (a b : Int) (hb : 0 ≤ b) : binop "lshift" a b = some (a * 2 ^ b.toNat, none) := by
-  simp [binop, hb]
+theorem shl_spec (a b : Int) (hb : 0 ≤ b) (hs : b ≤ Gen.maxShift) : binop "lshift" a b = some (a * 2 ^ b.toNat, none) := by
+  have h1 : -(Gen.maxShift : Int) ≤ b := by have : (0 : Int) ≤ (Gen.maxShift : Int) := Int.natCast_nonneg _; omega
+  simp [binop, shiftSane, hb, hs, h1]
 
 /-- `>>` is the floor of `a / 2ᵇ` -/
-theorem shr_spec (a b : Int) (hb : 0 ≤ b) : binop "rshift" a b = some (a / ((2 ^ b.toNat : Nat) : Int), none) := by
+theorem shr_spec (a b : Int) (hb : 0 ≤ b) (hs : b ≤ Gen.maxShift) : binop "rshift" a b = some (a / ((2 ^ b.toNat : Nat) : Int), none) := by
+  have h1 : -(Gen.maxShift : Int) ≤ b := by have : (0 : Int) ≤ (Gen.maxShift : Int) := Int.natCast_nonneg _; omega
   by_cases h0 : b = 0
-  · subst h0; simp [binop]
+  · subst h0; simp [binop, shiftSane]
   · have hp : b > 0 := by omega
-    simp [binop, h0, hp, Int.shiftRight_eq_div_pow]
+    simp [binop, shiftSane, hs, h1, h0, hp, Int.shiftRight_eq_div_pow]
 
 /-- negative shift counts are reported -/
 theorem neg_shift_reports (a b : Int) (hb : b < 0) :
@@ -62,17 +64,33 @@ theorem neg_shift_reports (a b : Int) (hb : b < 0) :
   have h1 : ¬ b ≥ 0 := by omega
   have h2 : ¬ b = 0 := by omega
   have h3 : ¬ b > 0 := by omega
-  exact ⟨⟨a >>> (-b).toNat, by simp [binop, h1]⟩, ⟨a * 2 ^ (-b).toNat, by simp [binop, h2, h3]⟩⟩
+  by_cases hs : shiftSane b = true
+  · exact ⟨⟨a >>> (-b).toNat, by simp [binop, hs, h1]⟩, ⟨a * 2 ^ (-b).toNat, by simp [binop, hs, h2, h3]⟩⟩
+  · exact ⟨⟨0, by simp [binop, hs]⟩, ⟨0, by simp [binop, hs]⟩⟩
+
+/-- shift counts beyond `MAX_SHIFT` bits in either direction are reported by all three shift operators
+(instead of being carried out) -/
+theorem absurd_shift_reports (a b : Int) (hb : b > Gen.maxShift ∨ b < -(Gen.maxShift : Int)) :
+    binop "lshift" a b = some (0, some "arithmetic-error") ∧ binop "rshift" a b = some (0, some "arithmetic-error") ∧
+    binop "lsh" a b = some (0, some "arithmetic-error") := by
+  have hs : shiftSane b = false := by
+    unfold shiftSane
+    rcases hb with h | h
+    · have : ¬ b ≤ (Gen.maxShift : Int) := by omega
+      simp [this]
+    · have : ¬ -(Gen.maxShift : Int) ≤ b := by omega
+      simp [this]
+  simp [binop, hs]
 
 /-- `_` shifts left for a non-negative count and right (floor) for a negative one, without error -/
-theorem lsh_spec (a b : Int) :
+theorem lsh_spec (a b : Int) (hs : shiftSane b = true) :
     (0 ≤ b → binop "lsh" a b = some (a * 2 ^ b.toNat, none)) ∧
     (b < 0 → binop "lsh" a b = some (a / ((2 ^ (-b).toNat : Nat) : Int), none)) := by
   constructor
-  · intro h; simp [binop, h]
+  · intro h; simp [binop, hs, h]
   · intro h
     have : ¬ b ≥ 0 := by omega
-    simp [binop, this, Int.shiftRight_eq_div_pow]
+    simp [binop, hs, this, Int.shiftRight_eq_div_pow]
 
 /-! ### bitwise operators: two's complement on unbounded integers -/
 
